@@ -48,6 +48,9 @@ def atoms(reversed_too=True):
             out.append(f'python_full_version {op} "{v}"')
             if reversed_too and op != "~=" and v.count(".") == 2:
                 out.append(f'"{v}" {op} python_full_version')
+    # three-segment python_version values with a zero patch level (the library re-renders X.Y.* sets that way)
+    for op in CMP_OPS:
+        out.append(f'python_version {op} "3.8.0"')
     out += ['python_version == "3.*"', 'python_version != "3.*"', 'python_full_version == "3.8.*"', 'python_full_version != "3.10.*"',
             'python_full_version == "3.*"', 'python_version in "3.8, 3.10"', 'python_version not in "3.8, 3.10"', 'python_version in "2.7"',
             'python_version not in "3.9"', 'platform_release >= "5.0"', 'platform_release < "6.1"', 'platform_release == "21.6.0"']
